@@ -1145,6 +1145,112 @@ pub fn run(rep: &mut Rep) {
         add_counters(rep, &w);
     }
     resumption_with_options(rep);
+    requests_at_full_window(rep);
+}
+
+/// Requests made while the send window announced by the server (Receive Maximum) is used up: only a further QoS>0 PUBLISH
+/// is held back by it. The PUBREL of a QoS 2 exchange under way, SUBSCRIBE, UNSUBSCRIBE, PINGREQ, QoS 0 PUBLISH and
+/// DISCONNECT are complete requests like at any other time, and each must be written as exactly one packet carrying the
+/// caller's options.
+fn requests_at_full_window(rep: &mut Rep) {
+    let pubs = publish_specs(rep);
+    let q0: Vec<PubSpec> = pubs.iter().filter(|s| s.eff_qos() == 0 && s.topic.is_some() && s.payload.as_ref().map(|p| p.len() < 70_000).unwrap_or(true)).cloned().collect();
+    let qn: Vec<PubSpec> = pubs.iter().filter(|s| s.eff_qos() > 0 && s.topic.is_some() && s.payload.as_ref().map(|p| p.len() < 70_000).unwrap_or(true)).cloned().collect();
+    let subs = subscribe_specs(rep);
+    let unsubs = unsubscribe_specs(rep);
+    let discs = disconnect_specs(rep);
+    let n = if rep.quick() { 60 } else { 3000 };
+    rep.note(&format!("requests at a full send window: {n} sessions with Receive Maximum 1 / 2 / 3 filled by QoS 1/2 publishes; then the PUBREL answering a PUBREC, and 6 further requests per session drawn from the generated SUBSCRIBE / UNSUBSCRIBE / QoS 0 PUBLISH / DISCONNECT option sets and PINGREQ, each must be written as exactly one packet equal to the caller's options"));
+    if q0.is_empty() || qn.is_empty() || subs.is_empty() || unsubs.is_empty() || discs.is_empty() {
+        return;
+    }
+    for k in 0..n {
+        let id = format!("full-window:{k}");
+        if !rep.take(96_000_000 + k, &id) {
+            continue;
+        }
+        let mut rng = Rng::new(rep.seed.wrapping_mul(7013).wrapping_add(k));
+        let r = 1 + (k % 3) as u16;
+        let mut sim = Sim::new(rep.seed);
+        sim.log_enabled = false;
+        sim.cmd(Cmd::Connect(ConnSpec::default()));
+        sim.settle();
+        sim.feed_packet(&rc::SPacket::Connack { session_present: false, reason: 0, props: vec![Prop::u16(33, r)] });
+        sim.settle();
+        sim.cmd(Cmd::Run);
+        sim.settle();
+        sim.parse_wire();
+        let mut ses = Session { sim, used: 0, qos_inflight: 0 };
+        // fill the window
+        let mut q2_ids = Vec::new();
+        for j in 0..r {
+            let sp = qn[rng.below(qn.len())].clone();
+            let before = ses.sim.wire.len();
+            run_request(rep, &mut ses, "PUBLISH", &id, OpSpec::Publish(sp.clone()), expect_publish(&sp));
+            if let Some(Ok(CPacket::Publish(p))) = ses.sim.wire.get(before).map(|w| w.pkt.clone()) {
+                if p.qos == 2 && (j + k as u16) % 2 == 0 {
+                    q2_ids.push(p.id.unwrap_or(0));
+                }
+            }
+        }
+        // the window is full: one more QoS>0 publish is refused without a byte written
+        {
+            let sp = qn[rng.below(qn.len())].clone();
+            let wlen = ses.sim.written_len();
+            let op = ses.sim.start_op(0, OpSpec::Publish(sp));
+            ses.sim.settle();
+            let refused = matches!(ses.sim.ops[op].out.as_ref().and_then(|o| o.err()), Some(ErrSum::QuotaExceeded));
+            if refused && ses.sim.written_len() == wlen {
+                rep.add("full_window_confirmed_by_a_refused_publish", 1);
+            }
+            ses.sim.parse_wire();
+        }
+        // the second phase of a QoS 2 exchange under way is not a new exchange
+        for pid in q2_ids {
+            let before = ses.sim.wire.len();
+            ses.sim.feed_packet(&rc::SPacket::Ack { kind: rc::AckKind::Pubrec, id: pid, reason: 0, props: vec![], form: rc::AckForm::Short2 });
+            ses.sim.settle();
+            ses.sim.parse_wire();
+            let new: Vec<WirePkt> = ses.sim.wire[before..].to_vec();
+            rep.add("requests", 1);
+            let ok = new.len() == 1 && ses.sim.wire_tail() == 0 && matches!(&new[0].pkt, Ok(CPacket::Ack(a)) if a.kind == rc::AckKind::Pubrel && a.id == pid && a.reason == 0 && a.props.is_empty());
+            if ok {
+                rep.add("packets_decoded_and_matched", 1);
+                rep.add("pubrels_written_at_full_window", 1);
+            } else {
+                report(rep, "C01/not-exactly-one-packet/pkt=PUBREL/full-window".into(), &id, format!("Receive Maximum {r} used up; PUBREC for id {pid}: expected exactly one PUBREL with that id, wire got {:?}", new.iter().map(|w| w.pkt.as_ref().map(|p| p.brief()).unwrap_or_else(|e| e.clone())).collect::<Vec<_>>()));
+            }
+        }
+        // every other kind of request
+        for j in 0..5 {
+            match (j + k) % 5 {
+                0 => {
+                    let sp = subs[rng.below(subs.len())].clone();
+                    run_request(rep, &mut ses, "SUBSCRIBE", &id, OpSpec::Subscribe(sp.clone()), expect_subscribe(&sp));
+                }
+                1 => {
+                    let sp = unsubs[rng.below(unsubs.len())].clone();
+                    run_request(rep, &mut ses, "UNSUBSCRIBE", &id, OpSpec::Unsubscribe(sp.clone()), expect_unsubscribe(&sp));
+                }
+                2 => run_request(rep, &mut ses, "PINGREQ", &id, OpSpec::Ping, Expect::Packet(CPacket::Pingreq)),
+                3 => {
+                    let sp = q0[rng.below(q0.len())].clone();
+                    run_request(rep, &mut ses, "PUBLISH", &id, OpSpec::Publish(sp.clone()), expect_publish(&sp));
+                }
+                _ => {
+                    let sp = subs[rng.below(subs.len())].clone();
+                    run_request(rep, &mut ses, "SUBSCRIBE", &id, OpSpec::Subscribe(sp.clone()), expect_subscribe(&sp));
+                }
+            }
+            rep.add("requests_at_full_window", 1);
+        }
+        let sp = discs[rng.below(discs.len())].clone();
+        run_request(rep, &mut ses, "DISCONNECT", &id, OpSpec::Disconnect(sp.clone()), expect_disconnect(&sp));
+        rep.add("requests_at_full_window", 1);
+        rep.add("evaluations", 1);
+        rep.add("full_window_sessions", 1);
+        rep.distinct(&("full-window", k));
+    }
 }
 
 /// Session resumption with the caller's options on the publishes: what is sent again must carry the same options as
